@@ -145,7 +145,7 @@ func pairInproc(c ctor) {
 	var got []string
 	rc := kit.Start("Recv", func() (interface{}, error) {
 		for i := 0; i < 4; i++ {
-			m, err := b.Recv()
+			m, err := kit.Recv(b)
 			if err != nil {
 				return nil, err
 			}
@@ -165,7 +165,7 @@ func pairInproc(c ctor) {
 	checkOrder("B", got, senders)
 	// and the other direction on the same connection
 	must(b.Send([]byte("back:0")), "Send back")
-	r2 := kit.Start("RecvBack", func() (interface{}, error) { m, err := a.Recv(); return string(m), err })
+	r2 := kit.Start("RecvBack", func() (interface{}, error) { m, err := kit.Recv(a); return string(m), err })
 	kit.Quiesce()
 	if !r2.Done() || r2.Err != nil || r2.Val.(string) != "back:0" {
 		kit.Failf("reverse-direction", "qlen=%d: A received done=%v %s %q", q, r2.Done(), kit.ErrName(r2.Err), r2.Val)
@@ -268,7 +268,7 @@ func pairPeers(c ctor, depth int) {
 				nsend++
 				msg := fmt.Sprintf("p%d", nsend)
 				cur.Deliver(append(hdr(), msg...))
-				cl := kit.Start("Recv", func() (interface{}, error) { b, err := s.Recv(); return string(b), err })
+				cl := kit.Start("Recv", func() (interface{}, error) { b, err := kit.Recv(s); return string(b), err })
 				kit.Quiesce()
 				if !cl.Done() || cl.Err != nil || cl.Val.(string) != msg {
 					kit.Failf("conversation-disturbed", "Recv done=%v %s %q, want %q", cl.Done(), kit.ErrName(cl.Err), cl.Val, msg)
@@ -410,7 +410,7 @@ func pairPeersDialer(c ctor, depth int) {
 				nsend++
 				msg := fmt.Sprintf("p%d", nsend)
 				cur.Deliver(append(append([]byte{}, hdr...), msg...))
-				cl := kit.Start("Recv", func() (interface{}, error) { b, err := s.Recv(); return string(b), err })
+				cl := kit.Start("Recv", func() (interface{}, error) { b, err := kit.Recv(s); return string(b), err })
 				kit.Quiesce()
 				if !cl.Done() || cl.Err != nil || cl.Val.(string) != msg {
 					kit.Failf("conversation-disturbed", "Recv done=%v %s %q, want %q", cl.Done(), kit.ErrName(cl.Err), cl.Val, msg)
@@ -606,7 +606,7 @@ func pullSched(c ctor) {
 	var got []string
 	rc := kit.Start("Recv", func() (interface{}, error) {
 		for i := 0; i < 4; i++ {
-			m, err := s.Recv()
+			m, err := kit.Recv(s)
 			if err != nil {
 				return nil, err
 			}
@@ -623,7 +623,7 @@ func pullSched(c ctor) {
 		kit.Failf("recv-stuck", "q=%d: receiver done=%v %s after %q", q, rc.Done(), kit.ErrName(rc.Err), got)
 	}
 	checkOrder("PULL", got, senders)
-	r2 := kit.Start("RecvExtra", func() (interface{}, error) { m, err := s.Recv(); return string(m), err })
+	r2 := kit.Start("RecvExtra", func() (interface{}, error) { m, err := kit.Recv(s); return string(m), err })
 	kit.Quiesce()
 	if r2.Done() {
 		kit.Failf("duplicate", "q=%d: a fifth message %q / %s was delivered", q, r2.Val, kit.ErrName(r2.Err))
